@@ -141,7 +141,7 @@ class Part:
     kind 'enum': enum(tier) -> iterable of case descriptors (sharded over workers by index)
     """
     def __init__(self, name, check, strategy=None, enum=None, n=None, workers=None,
-                 exhaustive=False, shrink=True, doc=''):
+                 exhaustive=False, shrink=True, doc='', fuzz_of=None, runs=None):
         self.name = name
         self.check = check
         self.strategy = strategy
@@ -152,6 +152,11 @@ class Part:
         self.shrink = shrink
         self.doc = doc
         self.kind = 'hyp' if strategy is not None else 'enum'
+        # kind 'fuzz': atheris / libFuzzer campaign over the strategy and check of part `fuzz_of`
+        self.fuzz_of = fuzz_of
+        self.runs = runs or {'quick': 0, 'thorough': 0}
+        if fuzz_of is not None:
+            self.kind = 'fuzz'
 
 
 # --------------------------------------------------------------------------------------
@@ -381,6 +386,57 @@ def save_replay(prop_id, part_name, failure):
 
 
 # --------------------------------------------------------------------------------------
+# coverage-guided campaigns
+
+
+def _run_fuzz_parts(prop_id, fparts, tier, seed):
+    import subprocess
+    import shutil
+    out = []
+    if not fparts:
+        return out
+    base = os.path.join(VERIF, '.fuzz')
+    procs = []
+    for p in fparts:
+        for k in range(p.workers[tier]):
+            d = os.path.join(base, f'{prop_id}-{p.name}-{k}')
+            shutil.rmtree(d, ignore_errors=True)
+            os.makedirs(d, exist_ok=True)
+            cmd = [sys.executable, '-W', 'ignore', os.path.join(HERE, 'fuzz_target.py'), prop_id, p.fuzz_of,
+                   str(p.runs[tier]), str(_derive_seed(seed, p.name, k) % 100000 + 1), d]
+            log = open(os.path.join(d, 'log'), 'w')
+            procs.append((p, k, d, subprocess.Popen(cmd, stdout=log, stderr=subprocess.STDOUT, cwd=VERIF), log))
+    for p, k, d, pr, log in procs:
+        rc = pr.wait()
+        log.close()
+        r = Stats().as_dict()
+        r.update(part=p.name, shard=k, wall=0.0, execs=0)
+        try:
+            with open(os.path.join(d, 'stats.json')) as f:
+                st_ = json.load(f)
+            for key in ('evaluations', 'nontrivial', 'labels', 'samples', 'excluded_known', 'unjudged', 'metrics', 'bulk_nontrivial'):
+                r[key] = st_.get(key, r[key])
+            r['execs'] = st_.get('execs', 0); r['wall'] = st_.get('wall', 0.0)
+        except Exception as e:  # noqa
+            r['harness_error'] = {'type': 'FuzzStatsMissing', 'message': f'no statistics from fuzz worker (rc={rc}): {e}', 'where': 'fuzz_target.py', 'traceback': ''}
+        fj = os.path.join(d, 'failure.json')
+        if os.path.exists(fj):
+            with open(fj) as f:
+                fd = json.load(f)
+            if fd.get('kind') == 'violation':
+                r['failure'] = fd
+            else:
+                r['harness_error'] = fd
+        elif rc not in (0,):
+            with open(os.path.join(d, 'log')) as f:
+                tail = f.read()[-1500:]
+            r['harness_error'] = {'type': 'FuzzerExit', 'message': f'fuzz worker exited with status {rc}', 'where': 'fuzz_target.py', 'traceback': tail}
+        out.append(r)
+        shutil.rmtree(d, ignore_errors=True)
+    return out
+
+
+# --------------------------------------------------------------------------------------
 # main
 
 
@@ -474,6 +530,8 @@ def main(argv):
     tasks = []
     parts = [p for p in mod.PARTS if not only or p.name in only]
     for p in parts:
+        if p.kind == 'fuzz':
+            continue
         w = p.workers[tier]
         for k in range(w):
             tasks.append((prop_id, p.name, tier, seed, k, w))
@@ -483,6 +541,7 @@ def main(argv):
         with ctx.Pool(nproc) as pool:
             for r in pool.imap_unordered(_work, tasks, chunksize=1):
                 results.append(r)
+    results += _run_fuzz_parts(prop_id, [p for p in parts if p.kind == 'fuzz' and p.runs.get(tier, 0) > 0], tier, seed)
     results.sort(key=lambda r: (r['part'], r['shard']))
 
     per_part = {}
@@ -522,12 +581,15 @@ def main(argv):
         evaluations += ev
         nontrivial.update((p.name, h) for h in nt)
         bulk_total += bulk_nt
-        per_part[p.name] = {'kind': 'enumeration' if p.kind == 'enum' else 'hypothesis',
+        if p.kind == 'fuzz' and not rs:
+            continue
+        per_part[p.name] = {'kind': {'enum': 'enumeration', 'hyp': 'hypothesis', 'fuzz': 'atheris/libFuzzer (structure-aware via Hypothesis fuzz_one_input)'}[p.kind],
                             'evaluations': ev, 'distinct_nontrivial': len(nt) + bulk_nt,
                             'classes': dict(sorted(labels.items())),
                             'worst_observed': metrics,
                             'exhaustive': bool(p.exhaustive and p.kind == 'enum'),
                             'workers': p.workers[tier], 'doc': p.doc,
+                            'fuzz_execs': sum(r.get('execs', 0) for r in rs) if p.kind == 'fuzz' else None,
                             'wall_s': round(max([r['wall'] for r in rs], default=0.0), 2)}
     if not samples and regress_stats.samples:
         samples = [{'part': 'replay', 'case': s} for s in regress_stats.samples]
@@ -557,7 +619,7 @@ def main(argv):
             'excluded_known': excluded_known,
             'unjudged': dict(sorted(unjudged.items())),
             'known_findings_reproduced': known_lines,
-            'exhaustive': bool(parts) and all(per_part[p.name]['exhaustive'] for p in parts),
+            'exhaustive': bool(per_part) and all(v['exhaustive'] for v in per_part.values()),
             'pytenet_path': PYTENET_PATH,
             'harness_errors': [{k: e.get(k) for k in ('part', 'type', 'message', 'where')} for e in harness_errors],
         },
